@@ -49,11 +49,30 @@ def rd_tempo(e):
     return 999
 
 
+_DURPOOL = {}
+
+
 def build(x):
     if x[0] == "L":
         d, l = int(x[1]), int(x[2])
         # every fifth label is a RatioDuration leaf, the others DirectDuration leaves
         dur = Fraction(d, TICK) if l % 5 == 2 else d / TICK
+        if l % 3 == 0:
+            # leaves may legitimately share one Duration object (a note-value constant reused across notes):
+            # every third label takes its duration object from a per-case pool keyed by the value
+            key = (d, l % 5 == 2)
+            if key not in _DURPOOL:
+                _DURPOOL[key] = cp.abc.Duration.from_any(dur)
+            dur = _DURPOOL[key]
+        if l >= 1000:
+            # shared reference stream (pure operations only): leaves with the same label >= 1000 and duration
+            # are ONE object referenced several times
+            key = ("leaf", d, l)
+            if key not in _DURPOOL:
+                o = C(dur)
+                o.name = l
+                _DURPOOL[key] = o
+            return _DURPOOL[key]
         c = C(dur)
         if l != -1:
             c.name = l
@@ -204,6 +223,7 @@ def apply_op(t, op):
 
 
 def run(case):
+    _DURPOOL.clear()
     k = case[0]
     if k == "dur":
         return ["ok", ticks(build(case[1]).duration)]
